@@ -13,4 +13,27 @@ FuncsA == {"sqr", "g"}
 ToksA == {"i", "j", "0"}
 GToksA == {"i", "j"}
 ExpsA == {"2", "-1"}
+\* mutants and corruptions over a small vocabulary
+VarsB == {"c", "a"}
+ToksB == {"i"}
+GToksB == {"i"}
+FuncsB == {"sqr", "g"}
+ExpsB == {"2"}
+WrapsB == {"scope", "jump"}
+\* numerals, traces and permutations on arrays of rank 2 and 3
+VarsC == {"A", "B", "T", "u"}
+ToksC == {"i", "j", "k", "0", "2"}
+VarsD == {"T", "A"}
+ToksD == {"i", "j", "k"}
+FuncsD == {"G"}
+\* everything (simulation)
+AllVars == {"c", "e", "a", "b", "u", "A", "B", "T"}
+AllNums == {"2", "3", "10", "0.5", ".5", "1.5", "0"}
+AllFuncs == {"sqr", "abs", "opposite", "g", "h", "G"}
+AllToks == {"i", "j", "k", "0", "1", "2"}
+AllGToks == {"i", "j", "k", "0", "1"}
+AllExps == {"2", "3", "-1", "-2", "0"}
+OneStyle == {1}
+ToksIJ == {"i", "j"}
+VarsT == {"T"}
 =============================================================================
